@@ -566,6 +566,17 @@ func (x *Exec) lookup(st *State, fr *Frame, v *ssa.Lookup) {
 		if isString(mt.Key()) {
 			if f := x.E.literalMapKeyFact(x, st, base.Src.Key, key, val, present); f != nil {
 				st.assume(f)
+			} else if fr.fc != nil {
+				// "flag mapkeys": membership in a large literal map implies equality with one of its keys
+				if _, on := fr.fc.Flags["mapkeys"]; on {
+					if rows, ok := x.E.literalRows(base.Src.Key); ok && len(rows) <= 400 {
+						var alts []*Term
+						for _, r := range rows {
+							alts = append(alts, x.strEq(st, key, x.E.stringConst(x, r.Key, types.Typ[types.String])))
+						}
+						st.assume(Implies(present, Or(alts...)))
+					}
+				}
 			}
 		}
 	}
